@@ -2,7 +2,6 @@ package wxgen
 
 import (
 	"fmt"
-	"os"
 	"math"
 	"math/rand"
 	"path/filepath"
@@ -57,9 +56,6 @@ func compareOne(r *hx.Result, drv *model.Driver, e string, o *Obj, cand map[stri
 	if mod == "outside" {
 		st.outside++
 		r.Dist("wx:outside")
-		if os.Getenv("WXDEBUG") != "" {
-			fmt.Fprintf(os.Stderr, "OUTSIDE %q impl=%s\n", e, impl)
-		}
 		// the implementation must still not panic
 		if strings.HasPrefix(impl, "panic") {
 			r.Fail(hx.Failure{Kind: "oracle", Signature: "whereexpr-panic", What: "expr.Eval panicked: " + impl, Case: caseOf(e, o)})
@@ -374,10 +370,20 @@ func blackBox(r *hx.Result, cfg hx.Config, rng *rand.Rand, drv *model.Driver) {
 			for qi := 0; qi < queries; qi++ {
 				var cls []clause
 				var ot *OTree
+				var bt *BTree
 				cand := map[string]bool{}
 				kind := ""
 				quirk := ""
-				switch k := rng.Intn(10); {
+				switch k := rng.Intn(12); {
+				case k >= 10: // a tree of Model/WhereExprTree.v, printed by the extracted Coq printer
+					bt = RandBTree(rng, 1+rng.Intn(3), names, !numericOnly)
+					txt, wf := bt.Print(drv)
+					if !wf {
+						panic("generated tree is not well formed: " + txt)
+					}
+					ot = bt.OTree()
+					cls = []clause{{expr: txt}}
+					kind = "coq-tree"
 				case k < 5: // oracle tree, safe spelling
 					ot = RandOTree(rng, 1+rng.Intn(3), names, !numericOnly)
 					cls = []clause{{expr: ot.Print(false, rng.Intn(3) == 0)}}
@@ -455,6 +461,25 @@ func blackBox(r *hx.Result, cfg hx.Config, rng *rand.Rand, drv *model.Driver) {
 				} else if mst != "ok" || strings.Join(mids, " ") != strings.Join(asc, " ") {
 					r.Fail(hx.Failure{Kind: "correspondence", Signature: "whereexpr-scan-model",
 						What: fmt.Sprintf("SCAN k %s IDS differs from Model.WhereExprScan.scan_expr_ids", show), Case: cs, Impl: strings.Join(asc, " "), Model: mst + " " + strings.Join(mids, " ")})
+				}
+				// (a') the denotation of the tree (what c12_expr_print_eval says the text evaluates to)
+				if bt != nil {
+					var dids []string
+					okAll := true
+					for _, o := range objs {
+						switch bt.ModelHolds(drv, o, tables) {
+						case "ok 1":
+							dids = append(dids, o.ID)
+						case "ok 0":
+						default:
+							okAll = false
+						}
+					}
+					if okAll && strings.Join(dids, " ") != strings.Join(asc, " ") {
+						r.Fail(hx.Failure{Kind: "correspondence", Signature: "whereexpr-den-model",
+							What: fmt.Sprintf("SCAN k %s IDS differs from the denotation Model.WhereExprTree.den_match of the tree", show), Case: cs,
+							Impl: strings.Join(asc, " "), Model: strings.Join(dids, " ")})
+					}
 				}
 				// (b) the documented meaning
 				if ot != nil {
@@ -587,7 +612,10 @@ func quirks(r *hx.Result, cfg hx.Config) {
 	defer c.Close()
 	c.MustDo("SET", "k", "a", "FIELD", "price", "25", "FIELD", "f", "5", "POINT", "1", "1")
 	c.MustDo("SET", "k", "b", "FIELD", "price", "5", "FIELD", "f", "-5", "POINT", "2", "2")
-	for _, q := range []struct{ e, sig, meaning string; want []string }{
+	for _, q := range []struct {
+		e, sig, meaning string
+		want            []string
+	}{
 		{"price-10 > 0", "whereexpr-quirk-ident-e-sign", "price - 10 > 0", []string{"a"}},
 		{"f*-1 < 3", "whereexpr-quirk-sign-after-factor", "f * (-1) < 3", []string{"a"}},
 	} {
